@@ -15,6 +15,8 @@ RULE = ('victim = release build of the current tree; every secret is run through
         'Monitor 2 (decides, sound): callgrind per-call dumps, the multiset {(object, instruction address) -> executions} must be identical for all secrets (a different multiset implies a '
         'different sequence). Targets: X25519 general/fixed-base, Ed25519 keypair/sign/sign-extended, Poly1305 (two public messages, one chosen so that small r drives the accumulator next to 2^130), '
         'HMAC-SHA256/512, ChaCha20/XChaCha20/Salsa20/ChaCha20-Poly1305 encryption, MacResult == for 16/20/32/64-byte MACs and Tag == with the first mismatch at every position. '
+        'Monitor 3 (decides, value-independent): valgrind memcheck with the secret bytes marked undefined right before the call (ctgrind idiom): a "conditional jump depends on uninitialised value" '
+        'report with a crate frame among the top frames means a branch condition derives from the secret, whether or not the sampled values take it differently (uses of the secret as a memory address are counted, not judged). '
         'Secrets: random, all-zero, all-ones, single-bit, low/high Hamming weight; distinct = (target, secret)')
 ASSUMPTIONS = ['decides on sampled secrets, this compiler and this host; says nothing about instruction latency or memory-address leakage',
                'callgrind and ptrace observe user-space instructions of the victim process; libc routines reached inside the region (memcpy, malloc) are part of the trace']
@@ -115,6 +117,37 @@ def callgrind_target(victim, target, secrets, wd):
     return {'target': target, 'secrets': len(secrets), 'ir_per_call': ref_total, 'distinct_addresses': len(ref_hist), 'diffs': diffs, 'inconclusive': None}
 
 
+# ------------------------------------------------------------------ monitor 3: memcheck with the secret marked undefined
+def taint_target(victim, target, secrets, wd):
+    """ctgrind idiom: the secret bytes are marked 'undefined' by a client request right before the call; memcheck then reports
+    every conditional jump whose condition derives from them - also for branches the sampled secret values never take differently."""
+    d = os.path.join(wd, 'taint-' + target)
+    shutil.rmtree(d, ignore_errors=True)
+    os.makedirs(d)
+    sf = os.path.join(d, 'secrets.txt')
+    open(sf, 'w').write('\n'.join(s.hex() for _, s in secrets) + '\n')
+    log = os.path.join(d, 'vg.log')
+    cmd = ['valgrind', '--tool=memcheck', '--leak-check=no', '--error-exitcode=0', '--num-callers=16', '--error-limit=no', '--log-file=' + log, victim, target, sf, 'taint']
+    try:
+        p = subprocess.run(cmd, stdout=subprocess.PIPE, stderr=subprocess.PIPE, text=True, timeout=1800)
+    except subprocess.TimeoutExpired:
+        return {'target': target, 'inconclusive': 'memcheck watchdog'}
+    if p.returncode != 0 or 'done %d' % len(secrets) not in p.stdout:
+        return {'target': target, 'inconclusive': 'memcheck run failed rc=%s %s' % (p.returncode, p.stderr[-300:])}
+    txt = open(log).read()
+    jumps, addr_uses = [], 0
+    for blk in re.split(r'\n==\d+== \n', txt):
+        if 'Conditional jump or move depends on uninitialised value' in blk:
+            frames = re.findall(r'(?:at|by) 0x[0-9A-F]+: (.+?)(?: \(|$)', blk, flags=re.M)
+            top = frames[:4]
+            if any('cryptoxide::' in f for f in top):
+                jumps.append({'frames': [f[:140] for f in frames[:5]]})
+        elif 'Use of uninitialised value' in blk:
+            addr_uses += 1
+    shutil.rmtree(d, ignore_errors=True)
+    return {'target': target, 'secrets': len(secrets), 'secret_dependent_jumps': jumps, 'secret_dependent_addresses': addr_uses, 'inconclusive': None}
+
+
 # ------------------------------------------------------------------ monitor 1: ptrace
 def ptrace_chunk(tracer, victim, target, secrets, wd, tag, dump=False):
     d = os.path.join(wd, 'pt-%s-%s' % (target, tag))
@@ -146,6 +179,94 @@ def first_divergence(d, i, j, victim):
     return {'index': k, 'rip_a': hex(pa) if pa else None, 'rip_b': hex(pb) if pb else None, 'last_common_rip': hex(prev) if prev else None}
 
 
+def _monitors(rep, extra, inconclusive, label, vic, tgts, secrets, wd, tracer, thorough, replay):
+    sfx = '' if label.startswith('64') else '@f32'
+    # ---- monitor 2
+    with ThreadPoolExecutor(max_workers=R.NPROC) as ex:
+        res2 = list(ex.map(lambda t: callgrind_target(vic, t, secrets[t], wd), tgts))
+    for r in res2:
+        t = r['target']
+        if r.get('inconclusive'):
+            inconclusive.append('callgrind %s: %s' % (t, r['inconclusive'])); continue
+        rep.evaluations += r['secrets']
+        for name, _ in secrets[t]:
+            rep.classes[('cg' + sfx, t, name)] = 1
+        extra['monitor2_callgrind'].append({'build': label, 'target': t, 'secrets': r['secrets'], 'instructions_per_call': r['ir_per_call'], 'distinct_instruction_addresses': r['distinct_addresses'],
+                                            'secrets_with_different_histogram': len(r['diffs'])})
+        for dinfo in r['diffs']:
+            fd = dinfo['first_differences'][0] if dinfo['first_differences'] else {}
+            rep.violations.append(('callgrind', -1, 'C19:%s%s:instruction-histogram-depends-on-secret' % (t, sfx),
+                                   'secret %s executes %d instructions, %s executes %d; %d addresses differ, e.g. %s in %s (%d vs %d executions)' % (
+                                       dinfo['secret'], dinfo['ir'], dinfo['reference'], dinfo['ir_reference'], dinfo['n_addresses_differing'], fd.get('addr'), fd.get('fn'), fd.get('this', 0), fd.get('ref', 0)),
+                                   '%s %s' % (t, dinfo['secret_hex']), None))
+            # make the replay self-contained: include the reference secret
+            rep.violations.append(('callgrind', -1, 'C19:%s%s:instruction-histogram-depends-on-secret' % (t, sfx), 'reference secret', '%s %s' % (t, secrets[t][0][1].hex()), None))
+    # ---- monitor 3 (few secrets suffice: the taint does not depend on the secret's value)
+    with ThreadPoolExecutor(max_workers=R.NPROC) as ex:
+        res3 = list(ex.map(lambda t: taint_target(vic, t, secrets[t][:6], wd), tgts))
+    for r in res3:
+        t = r['target']
+        if r.get('inconclusive'):
+            inconclusive.append('memcheck-taint %s: %s' % (t, r['inconclusive'])); continue
+        rep.evaluations += r['secrets']
+        extra['monitor3_memcheck_taint'].append({'build': label, 'target': t, 'secrets': r['secrets'], 'conditional_jumps_on_secret': len(r['secret_dependent_jumps']),
+                                                 'secret_used_as_address': r['secret_dependent_addresses']})
+        seen = set()
+        for j in r['secret_dependent_jumps']:
+            fn = next((f for f in j['frames'] if 'cryptoxide::' in f), j['frames'][0])
+            if fn in seen:
+                continue
+            seen.add(fn)
+            rep.violations.append(('memcheck-taint', -1, 'C19:%s%s:conditional-jump-on-secret' % (t, sfx), 'memcheck: a conditional jump in %s depends on the secret (frames: %s)' % (fn, ' <- '.join(j['frames'][:4])),
+                                   '%s %s' % (t, secrets[t][0][1].hex()), None))
+    # ---- monitor 1 (the force-32bits build is single-stepped only in the thorough tier: > 1.2 M steps per X25519 call)
+    jobs = []
+    for t in (tgts if (sfx == '' or thorough) else []):
+        ss = secrets[t]
+        if t in LARGE:
+            pick = [s for s in ss if s[0] in ('zero', 'ones')] + [s for s in ss if s[0].startswith('rnd')][:(14 if thorough else 1)]
+            if replay:
+                pick = ss
+            for i, s in enumerate(pick):
+                jobs.append((t, [s], 'j%d' % i))
+        else:
+            cap = len(ss) if (thorough or t in CMP) else 24
+            pick = ss[:cap]
+            # chunks of ~12 secrets to use the cores
+            for i in range(0, len(pick), 12):
+                jobs.append((t, pick[i:i + 12], 'j%d' % (i // 12)))
+    with ThreadPoolExecutor(max_workers=R.NPROC) as ex:
+        res1 = list(ex.map(lambda j: ptrace_chunk(tracer, vic, j[0], j[1], wd, j[2]), jobs))
+    by_target = {}
+    for r in res1:
+        if r.get('inconclusive'):
+            inconclusive.append('ptrace %s: %s' % (r['target'], r['inconclusive'])); continue
+        by_target.setdefault(r['target'], []).extend(r['traces'])
+        shutil.rmtree(r['dir'], ignore_errors=True)
+    for t, traces in by_target.items():
+        rep.evaluations += len(traces)
+        for tr in traces:
+            rep.classes[('pt' + sfx, t, tr[0])] = 1
+        sigs = {}
+        for name, hx, steps, h in traces:
+            sigs.setdefault((steps, h), []).append((name, hx))
+        extra['monitor1_ptrace'].append({'build': label, 'target': t, 'traces': len(traces), 'steps': sorted(set(k[0] for k in sigs)), 'distinct_trace_hashes': len(sigs), 'trace_hash': sorted(k[1] for k in sigs)[:4]})
+        if len(sigs) > 1:
+            groups = sorted(sigs.items(), key=lambda kv: -len(kv[1]))
+            ref = groups[0]
+            for (steps, h), members in groups[1:]:
+                name, hx = members[0]
+                # re-trace the pair with dumps to locate the first divergence
+                rr = ptrace_chunk(tracer, vic, t, [('ref', bytes.fromhex(ref[1][0][1])), (name, bytes.fromhex(hx))], wd, 'diag', dump=True)
+                where = first_divergence(rr['dir'], 0, 1, vic) if not rr.get('inconclusive') else {}
+                if rr.get('dir'):
+                    shutil.rmtree(rr['dir'], ignore_errors=True)
+                rep.violations.append(('ptrace', -1, 'C19:%s%s:pc-trace-depends-on-secret' % (t, sfx),
+                                       'secret %s: %d steps hash %s; reference %s: %d steps hash %s; first divergence %r' % (name, steps, h, ref[1][0][0], ref[0][0], ref[0][1], where),
+                                       '%s %s' % (t, hx), None))
+                rep.violations.append(('ptrace', -1, 'C19:%s%s:pc-trace-depends-on-secret' % (t, sfx), 'reference secret', '%s %s' % (t, ref[1][0][1]), None))
+
+
 def run(tier, seed, replay=None):
     thorough = tier == 'thorough'
     rep = R.Report(ID, tier, seed)
@@ -173,74 +294,17 @@ def run(tier, seed, replay=None):
         targets = list(want)
     n_random = 2000 if thorough else 40
     secrets = {t: (want[t] if replay else secrets_for(t, rng, n_random if t not in LARGE else (300 if thorough else 40))) for t in targets}
-    extra = {'monitor2_callgrind': [], 'monitor1_ptrace': []}
-    # ---- monitor 2
-    with ThreadPoolExecutor(max_workers=R.NPROC) as ex:
-        res2 = list(ex.map(lambda t: callgrind_target(victim, t, secrets[t], wd), targets))
+    extra = {'monitor2_callgrind': [], 'monitor1_ptrace': [], 'monitor3_memcheck_taint': []}
     inconclusive = []
-    for r in res2:
-        t = r['target']
-        if r.get('inconclusive'):
-            inconclusive.append('callgrind %s: %s' % (t, r['inconclusive'])); continue
-        rep.evaluations += r['secrets']
-        for name, _ in secrets[t]:
-            rep.classes[('cg', t, name)] = 1
-        extra['monitor2_callgrind'].append({'target': t, 'secrets': r['secrets'], 'instructions_per_call': r['ir_per_call'], 'distinct_instruction_addresses': r['distinct_addresses'],
-                                            'secrets_with_different_histogram': len(r['diffs'])})
-        for dinfo in r['diffs']:
-            fd = dinfo['first_differences'][0] if dinfo['first_differences'] else {}
-            rep.violations.append(('callgrind', -1, 'C19:%s:instruction-histogram-depends-on-secret' % t,
-                                   'secret %s executes %d instructions, %s executes %d; %d addresses differ, e.g. %s in %s (%d vs %d executions)' % (
-                                       dinfo['secret'], dinfo['ir'], dinfo['reference'], dinfo['ir_reference'], dinfo['n_addresses_differing'], fd.get('addr'), fd.get('fn'), fd.get('this', 0), fd.get('ref', 0)),
-                                   '%s %s' % (t, dinfo['secret_hex']), None))
-            # make the replay self-contained: include the reference secret
-            rep.violations.append(('callgrind', -1, 'C19:%s:instruction-histogram-depends-on-secret' % t, 'reference secret', '%s %s' % (t, secrets[t][0][1].hex()), None))
-    # ---- monitor 1
-    jobs = []
-    for t in targets:
-        ss = secrets[t]
-        if t in LARGE:
-            pick = [s for s in ss if s[0] in ('zero', 'ones')] + [s for s in ss if s[0].startswith('rnd')][:(14 if thorough else 1)]
-            if replay:
-                pick = ss
-            for i, s in enumerate(pick):
-                jobs.append((t, [s], 'j%d' % i))
-        else:
-            cap = len(ss) if (thorough or t in CMP) else 24
-            pick = ss[:cap]
-            # chunks of ~12 secrets to use the cores
-            for i in range(0, len(pick), 12):
-                jobs.append((t, pick[i:i + 12], 'j%d' % (i // 12)))
-    with ThreadPoolExecutor(max_workers=R.NPROC) as ex:
-        res1 = list(ex.map(lambda j: ptrace_chunk(tracer, victim, j[0], j[1], wd, j[2]), jobs))
-    by_target = {}
-    for r in res1:
-        if r.get('inconclusive'):
-            inconclusive.append('ptrace %s: %s' % (r['target'], r['inconclusive'])); continue
-        by_target.setdefault(r['target'], []).extend(r['traces'])
-        shutil.rmtree(r['dir'], ignore_errors=True)
-    for t, traces in by_target.items():
-        rep.evaluations += len(traces)
-        for tr in traces:
-            rep.classes[('pt', t, tr[0])] = 1
-        sigs = {}
-        for name, hx, steps, h in traces:
-            sigs.setdefault((steps, h), []).append((name, hx))
-        extra['monitor1_ptrace'].append({'target': t, 'traces': len(traces), 'steps': sorted(set(k[0] for k in sigs)), 'distinct_trace_hashes': len(sigs), 'trace_hash': sorted(k[1] for k in sigs)[:4]})
-        if len(sigs) > 1:
-            groups = sorted(sigs.items(), key=lambda kv: -len(kv[1]))
-            ref = groups[0]
-            for (steps, h), members in groups[1:]:
-                name, hx = members[0]
-                # re-trace the pair with dumps to locate the first divergence
-                rr = ptrace_chunk(tracer, victim, t, [('ref', bytes.fromhex(ref[1][0][1])), (name, bytes.fromhex(hx))], wd, 'diag', dump=True)
-                where = first_divergence(rr['dir'], 0, 1, victim) if not rr.get('inconclusive') else {}
-                if rr.get('dir'):
-                    shutil.rmtree(rr['dir'], ignore_errors=True)
-                rep.violations.append(('ptrace', -1, 'C19:%s:pc-trace-depends-on-secret' % t,
-                                       'secret %s: %d steps hash %s; reference %s: %d steps hash %s; first divergence %r' % (name, steps, h, ref[1][0][0], ref[0][0], ref[0][1], where),
-                                       '%s %s' % (t, hx), None))
-                rep.violations.append(('ptrace', -1, 'C19:%s:pc-trace-depends-on-secret' % t, 'reference secret', '%s %s' % (t, ref[1][0][1]), None))
+    configs = [('64-bit backend (default build)', victim, targets)]
+    if not replay or os.environ.get('C19_REPLAY_F32'):
+        try:
+            victim32 = R.build('f32', binary='ctvictim')
+            configs.append(('32-bit limb backend (force-32bits build)', victim32, [t for t in targets if t in LARGE]))
+        except R.Inconclusive as e:
+            inconclusive.append('force-32bits victim not built: %s' % str(e)[-200:])
+    for label, vic, tgts in configs:
+        _monitors(rep, extra, inconclusive, label, vic, tgts, secrets, wd, tracer, thorough, replay)
     rep.samples = ['%s %s (%s)' % (t, secrets[t][i][1].hex(), secrets[t][i][0]) for t in targets[:8] for i in (0, min(3, len(secrets[t]) - 1))]
     extra['targets'] = targets
     if inconclusive:
